@@ -6,6 +6,8 @@ import JanetModel.GC.Collect
 import JanetModel.GC.Mutator
 import JanetModel.GC.Locked
 import JanetModel.GC.WeakLemmas
+import JanetModel.GC.RingMark
+import JanetModel.GC.SymSweep
 
 namespace JanetModel.Props.C01
 open JanetModel.GC Std
@@ -267,17 +269,9 @@ theorem markSites_as_modelled : Gen.GC.markSites = [
   ("janet_stream_mark", "janet_mark", "janet_wrap_fiber(wf)"),
   ("janet_ev_mark", "janet_mark", "janet_wrap_fiber(tasks[i].fiber)"),
   ("janet_ev_mark", "janet_mark", "tasks[i].value"),
-  ("janet_ev_mark", "janet_mark", "janet_wrap_fiber(tasks[i].fiber)"),
-  ("janet_ev_mark", "janet_mark", "tasks[i].value"),
-  ("janet_ev_mark", "janet_mark", "janet_wrap_fiber(tasks[i].fiber)"),
-  ("janet_ev_mark", "janet_mark", "tasks[i].value"),
   ("janet_ev_mark", "janet_mark", "janet_wrap_fiber(janet_vm.tq[i].fiber)"),
   ("janet_ev_mark", "janet_mark", "janet_wrap_fiber(janet_vm.tq[i].curr_fiber)"),
   ("janet_chanat_mark_fq", "janet_mark", "janet_wrap_fiber(pending[i].fiber)"),
-  ("janet_chanat_mark_fq", "janet_mark", "janet_wrap_fiber(pending[i].fiber)"),
-  ("janet_chanat_mark_fq", "janet_mark", "janet_wrap_fiber(pending[i].fiber)"),
-  ("janet_chanat_mark", "janet_mark", "data[i]"),
-  ("janet_chanat_mark", "janet_mark", "data[i]"),
   ("janet_chanat_mark", "janet_mark", "data[i]"),
   ("parsermark", "janet_mark", "parser->args[i]"),
   ("parsermark", "janet_mark", "janet_wrap_string((constuint8_t*)parser->error)"),
@@ -573,5 +567,109 @@ def wkvTable : WTable :=
 
 example : wkvTable.wf = true := by decide
 example : (absTable wkvTable).entries = [⟨[2, 3], []⟩, ⟨[2, 4], []⟩] := by decide
+
+/-! ### session 4: the mark phase's walks over ring buffers (run queue = a root set, channel pending queues, channel items)
+
+`Gen.GC.ringWalks` is the loop structure of `janet_ev_mark`, `janet_chanat_mark_fq` and `janet_chanat_mark` as written in the
+current source (initialiser, comparison, bound and step of every for-loop over the queue, and the head/tail branch). -/
+section ring
+open JanetModel.GC.RingMark JanetModel.Ev
+
+/-- every ring walk of the current source has one of the two shapes proved right in `GC/RingMark.lean`
+(a loop with `i < tail` and the wrapping step, a bound off by one, a dropped second segment … make this `decide` fail) -/
+theorem ring_walks_as_modelled : (Gen.GC.ringWalks.all fun p => knownSound p.2) = true ∧
+    Gen.GC.ringWalks.map (·.1) = ["janet_ev_mark", "janet_chanat_mark_fq", "janet_chanat_mark"] := by decide
+
+/-- For every queue state that satisfies the representation invariant of `JanetQueue` (empty, contiguous, wrapped round,
+write position at slot 0, just reallocated), each of the three walks, run as the source writes it, hands to `janet_mark`
+exactly the abstract content of the queue, head first - nothing skipped, nothing stale, and the loops stop by themselves
+(any iteration budget ≥ capacity gives the same result). -/
+theorem mark_ring_walk_visits_all {α : Type} (name : String) (w : Gen.GC.RingWalk) (hw : (name, w) ∈ Gen.GC.ringWalks)
+    (q : RingQ α) (h : q.WF) (fuel : Nat) (hf : q.cap ≤ fuel) : marked fuel w q = q.toList := by
+  have hs : knownSound w = true := by
+    have := ring_walks_as_modelled.1
+    rw [List.all_eq_true] at this
+    exact this (name, w) hw
+  exact marked_eq_toList w hs q h fuel hf
+
+/-- … and therefore after EVERY history of `janet_q_push` / `janet_q_push_head` / `janet_q_pop` (with the reallocation and the
+move of the upper segment inside `janet_q_maybe_resize`) from `janet_q_init`: what the walk marks is the list obtained by
+running the same operations on a plain list.  So a value in flight in a channel, a fiber parked on a channel and a
+scheduled task are marked wherever the ring's read and write positions happen to be. -/
+theorem mark_ring_walk_all_histories {α : Type} (name : String) (w : Gen.GC.RingWalk) (hw : (name, w) ∈ Gen.GC.ringWalks)
+    (d : α) (maxCap : Nat) (ops : List (QOp α)) (q : RingQ α) (hr : runQ maxCap (RingQ.init d) ops = some q)
+    (fuel : Nat) (hf : q.cap ≤ fuel) : marked fuel w q = ops.foldl absStep [] := by
+  have := runQ_spec maxCap ops (RingQ.init d) q (init_wf d) hr
+  rw [mark_ring_walk_visits_all name w hw q this.1 fuel hf, this.2, init_toList]
+
+/-- non-vacuity: ring of capacity 4 after give,give,take,take,give,give,give: read position 2, write position 1, three
+items in slots 2,3,0 - the walks visit 2,3,0; the loop `for (i = head; i < tail; i = i+1 < cap ? i+1 : 0)` visits nothing -/
+example : WF ⟨2, 1, 4⟩ ∧ ringSlots ⟨2, 1, 4⟩ = [2, 3, 0] ∧ runWalk 4 ⟨2, 1, 4⟩ Gen.GC.ringWalkChanItems = [2, 3, 0] ∧
+    runWalk 9 ⟨2, 1, 4⟩ wrapLoop = [2, 3, 0] ∧
+    runWalk 9 ⟨2, 1, 4⟩ (.seq [⟨.head, .lt, .tail, .wrapInc⟩]) = [] ∧ knownSound (.seq [⟨.head, .lt, .tail, .wrapInc⟩]) = false := by
+  decide
+
+example : (runQ 100 (RingQ.init 0) [.push 1, .push 2, .pop, .pop, .push 3, .push 4, .push 5]).map (fun q => (q.head, q.tail, q.cap, q.toList))
+    = some (2, 1, 4, [3, 4, 5]) := by decide
+
+end ring
+
+/-! ### session 4: the sweep's side effect on the symbol cache (gc.c janet_sweep → janet_deinit_block → symcache.c
+janet_symbol_deinit).  Model = composition of `collect` with the symbol-cache model of `Value/SymCache.lean`
+(`GC/SymSweep.lean`). -/
+section symcache
+open JanetModel.GC.SymSweep JanetModel.Value.SymCache
+
+/-- the facts about symcache.c / janet_deinit_block regenerated by THIS check agree with the constants the cache model is
+built from (Gen/Value.lean, C03's translator): a vacated bucket gets the tombstone, never NULL -/
+theorem symcache_facts_agree :
+    Gen.GC.symDeinitWritesDeleted = Gen.Value.symDeinitWritesDeleted ∧ Gen.GC.symMoveVacatedDeleted = Gen.Value.symMoveVacatedDeleted ∧
+    Gen.GC.symCacheInitCap = Gen.Value.symCacheInitCap ∧ Gen.GC.symDeinitWritesDeleted = true ∧
+    Gen.GC.symMoveVacatedDeleted = true ∧ Gen.GC.sweepDeinitsFreedSymbols = true := by decide
+
+/-- The tie between heap and symbol cache - the cache holds exactly the existing symbol blocks, each under its bytes at its
+own address, no duplicates, every entry reachable along its probe path, `cache_count` = number of entries - is preserved by a
+collection: for every heap, cache state, depth limit D ≥ 0 and order of the block list. -/
+theorem collect_keeps_symcache_tied (D : Nat) (order : List Id) (s : SymVM) (hc : CInvC s.cache)
+    (ht : Tied s.heap s.names s.cache)
+    (hall : ∀ i, (s.heap.get i).isSome = true → i ∈ order) (hex : ∀ i, i ∈ order → (s.heap.get i).isSome = true) :
+    CInvC (collectSym D order s).cache ∧ Tied (collectSym D order s).heap (collectSym D order s).names (collectSym D order s).cache :=
+  collectSym_tied D order s hc ht hall hex
+
+/-- **Interning is transparent**: for the bytes of every REACHABLE symbol / keyword block, `janet_symbol` returns the same
+object after the collection as without it - whichever other symbols were freed and wherever they sat on its probe path
+(its home bucket, the last bucket before the probe wraps to bucket 0, the middle of the chain). -/
+theorem intern_same_after_collect (D : Nat) (hD : 1 ≤ D) (order : List Id) (s : SymVM) (hc : CInvC s.cache)
+    (ht : Tied s.heap s.names s.cache)
+    (hall : ∀ i, (s.heap.get i).isSome = true → i ∈ order) (hex : ∀ i, i ∈ order → (s.heap.get i).isSome = true)
+    (i : Id) (b : List UInt8) (hn : s.names i = some b) (r : Reachable s.heap i) :
+    (∃ c', intern s.cache b = some (c', i)) ∧ (∃ c', intern (collectSym D order s).cache b = some (c', i)) :=
+  intern_after_collect D hD order s hc ht hall hex i b hn r
+
+/-- after the collection no cache entry points to a freed block -/
+theorem symcache_no_dangling_after_collect (D : Nat) (order : List Id) (s : SymVM) (hc : CInvC s.cache)
+    (ht : Tied s.heap s.names s.cache)
+    (hall : ∀ i, (s.heap.get i).isSome = true → i ∈ order) (hex : ∀ i, i ∈ order → (s.heap.get i).isSome = true) :
+    (∀ q x, Live (collectSym D order s).cache.slots q x → ((collectSym D order s).heap.get q).isSome = true) ∧
+    (collectSym D order s).cache.count = liveCount (collectSym D order s).cache.slots :=
+  cache_after_collect_no_dangling D order s hc ht hall hex
+
+/-- non-vacuity: a 4-bucket cache; the bytes [1], [4], [8] all have the LAST bucket (3) as home, so the chain wraps: buckets
+3, 0, 1.  The symbol in the last bucket is not marked.  The collection leaves the tombstone there, and the lookup of [8]
+still finds it (moving it into the tombstone, as janet_symcache_findmem does); with NULL instead of the tombstone the same
+lookup misses - the situation of a `janet_symbol_deinit` that empties the last bucket. -/
+def symCache0 : Cache := { slots := [.live 1 [4], .live 2 [8], .empty, .live 0 [1]], count := 3, deleted := 0, next := 3 }
+def symNames : Names := fun i => [some [1], some [4], some [8]].getD i none
+
+example (m : HashSet Nat) (h0 : m.contains 0 = false) (h1 : m.contains 1 = true) (h2 : m.contains 2 = true) :
+    (sweepCache m symNames [0, 1, 2] symCache0).slots = [.live 1 [4], .live 2 [8], .empty, .deleted] ∧
+    (find (sweepCache m symNames [0, 1, 2] symCache0).slots [8]).2 = .hit 3 ∧
+    (find [.live 1 [4], .live 2 [8], .empty, .empty] [8]).2 = .miss (some 3) := by
+  have e : sweepCache m symNames [0, 1, 2] symCache0 = deinit symCache0 [1] := by
+    simp [sweepCache, symNames, h0, h1, h2]
+  rw [e]
+  decide
+
+end symcache
 
 end JanetModel.Props.C01
